@@ -62,11 +62,17 @@ type c15 struct {
 
 	zeroWithRelatedLive bool
 	observedAfter       bool
+	observe             int
+	pendingZeroLed      []int64
+	obsRng              *kit.Rng
+	final               bool
 }
 
 func (s *c15) Start(r *kit.Rng, cfg map[string]int64) {
 	if r == nil {
 		s.probeIdx = uint32(cfg["probe_child"])
+		s.observe = int(cfg["observe"])
+		s.obsRng = kit.NewRng(uint64(cfg["observe_seed"]))
 		return
 	}
 	s.maxSteps = r.Range(3, 40*kit.Depth)
@@ -85,6 +91,13 @@ func (s *c15) Start(r *kit.Rng, cfg map[string]int64) {
 	}
 	s.probeIdx = []uint32{0, 1, 2, 7, 1 << 30}[r.Intn(5)]
 	cfg["probe_child"] = int64(s.probeIdx)
+	// observing a key can itself fill lazily computed state, so not every
+	// run observes everything after every step: 0 = every key every step,
+	// 1 = each key with probability 1/4 per step, 2 = only at the end
+	s.observe = []int{0, 0, 1, 1, 2}[r.Intn(5)]
+	cfg["observe"] = int64(s.observe)
+	cfg["observe_seed"] = int64(r.U32())
+	s.obsRng = kit.NewRng(uint64(cfg["observe_seed"]))
 	cfg["max_steps"] = int64(s.maxSteps)
 }
 
@@ -99,7 +112,11 @@ func (s *c15) live() []int {
 }
 
 func (s *c15) Gen(r *kit.Rng) (kit.Op, bool) {
-	if s.steps >= s.maxSteps {
+	if s.steps == s.maxSteps {
+		s.steps++
+		return kit.Op{K: "observe-all"}, true
+	}
+	if s.steps > s.maxSteps {
 		return kit.Op{}, false
 	}
 	s.steps++
@@ -108,6 +125,12 @@ func (s *c15) Gen(r *kit.Rng) (kit.Op, bool) {
 		return s.genMaster(r), true
 	}
 	pick := func() int { return live[r.Intn(len(live))] }
+	if len(s.pendingZeroLed) > 0 && len(s.hs) < 10 {
+		idx := s.pendingZeroLed[0]
+		s.pendingZeroLed = s.pendingZeroLed[1:]
+		// the master just created is the last handle
+		return kit.Op{K: "child", H: len(s.hs) - 1, N: []int64{idx}}, true
+	}
 	for {
 		k := r.Pick(s.w)
 		if len(s.hs) >= 10 && k <= 4 && k != 4 {
@@ -169,7 +192,26 @@ func (s *c15) Gen(r *kit.Rng) (kit.Op, bool) {
 	}
 }
 
+// c15ZeroLed lists (seed, index) pairs whose child PRIVATE key begins with
+// two zero bytes; found with the BIP32 model alone (sim/cmd/findkeys).
+var c15ZeroLed = []struct {
+	seed string
+	idx  uint32
+}{
+	{"verif distinguished seed 00....", 2147487600},
+	{"verif distinguished seed 01....", 176735},
+	{"verif distinguished seed 02....", 2147530650},
+	{"verif distinguished seed 03....", 2496},
+	{"verif distinguished seed 04....", 2147534406},
+	{"verif distinguished seed 05....", 35017},
+}
+
 func (s *c15) genMaster(r *kit.Rng) kit.Op {
+	if r.Chance(1, 25) {
+		z := c15ZeroLed[r.Intn(len(c15ZeroLed))]
+		s.pendingZeroLed = append(s.pendingZeroLed, int64(z.idx))
+		return kit.Op{K: "master", D: kit.Hex([]byte(z.seed)), N: []int64{0}}
+	}
 	n := []int{16, 32, 64, r.Range(16, 64)}[r.Intn(4)]
 	return kit.Op{K: "master", D: kit.Hex(r.Bytes(n)), N: []int64{int64(r.Intn(len(c15Nets)))}}
 }
@@ -323,6 +365,9 @@ func (s *c15) Apply(o kit.Op) *kit.Violation {
 			s.add(rk, mk, "child", o.H)
 			if mk.Private && mk.Key[0] == 0 {
 				s.st.Probe("child-scalar-with-leading-zero-byte")
+				if mk.Key[1] == 0 {
+					s.st.Probe("child-scalar-with-two-leading-zero-bytes")
+				}
 			}
 		} else if merr == model.ErrModelHardenedFromPublic {
 			s.st.Probe("hardened-from-public-refused")
@@ -461,6 +506,8 @@ func (s *c15) Apply(o kit.Op) *kit.Violation {
 		if !bytes.Equal(a.ScriptAddress(), model.Hash160(h.mod.PubKey())) {
 			return kit.V("independence:address-changed", "Address of handle %d is not HASH160 of the model's public key", o.H)
 		}
+	case "observe-all":
+		s.final = true
 	case "usezeroed":
 		if h == nil || h.mod != nil {
 			return nil
@@ -497,6 +544,16 @@ func (s *c15) describe(i int) string {
 func (s *c15) Check() *kit.Violation {
 	liveN := 0
 	for i, h := range s.hs {
+		if !s.final && h.mod != nil {
+			switch s.observe {
+			case 1:
+				if !s.obsRng.Chance(1, 4) {
+					continue
+				}
+			case 2:
+				continue
+			}
+		}
 		if h.mod == nil {
 			if got := h.real.String(); got != "zeroed extended key" {
 				return kit.V("erasure:not-reported-zeroed", "%s was zeroed but String() = %q", s.describe(i), got)
@@ -548,7 +605,7 @@ func (s *c15) Check() *kit.Violation {
 		}
 	}
 	// derivation behaviour: one live handle per step (rotating) derives a probe child
-	if live := s.live(); len(live) > 0 {
+	if live := s.live(); len(live) > 0 && (s.observe == 0 || s.final) {
 		i := live[s.stepNo%len(live)]
 		h := s.hs[i]
 		idx := s.probeIdx
